@@ -33,6 +33,10 @@ type c02Plan struct {
 	// timeout is two seconds in these runs: a packet whose bytes take longer than that to arrive, without any
 	// single silence reaching the timeout, must still be received.
 	Slow []int `json:"slow,omitempty"`
+	// EOFAtEnd: the server closes the connection right after the response and the transport hands the last bytes
+	// over together with io.EOF (one Read returns n > 0 and the error). The packages are all there; the errors
+	// that follow them are the transport's.
+	EOFAtEnd bool `json:"eof_at_end,omitempty"`
 }
 
 // c02Packets builds the packets of the faulted delivery.
@@ -282,7 +286,22 @@ func (c02) Gen(r *Rand, idx int, tier string) interface{} {
 			sort.Ints(p.Slow)
 		}
 	}
+	if len(p.Slow) == 0 && r.Pct(8) {
+		p.EOFAtEnd = true
+	}
 	return p
+}
+
+func c02Delivery(body []byte, p *c02Plan) respDelivery {
+	d := respDelivery{Packets: c02Packets(body, p), TermAt: -1, Async: p.Async, PauseAfterByte: p.Slow}
+	if p.EOFAtEnd {
+		n := 0
+		for _, x := range d.Packets {
+			n += len(x)
+		}
+		d.TermAt, d.TermKind, d.TermWithData = n, simrt.TermEOF, true
+	}
+	return d
 }
 
 func (c02) Decode(raw json.RawMessage) (interface{}, error) {
@@ -392,7 +411,7 @@ func (c02) Run(plan interface{}, schedSeed uint64, replay []simrt.Choice, lenien
 		readTimeout = 2
 	}
 	got := runResp(cfg,
-		respDelivery{Packets: c02Packets(body, p), TermAt: -1, Async: p.Async, PauseAfterByte: p.Slow},
+		c02Delivery(body, p),
 		respClient{QueueSize: p.QueueSize, ReadTimeoutS: readTimeout, DebugLog: p.DebugLog, ReadSizes: p.ReadSizes, Twin: p.Twin, Logical: p.Logical})
 	out := got.Out
 	StdOutcome(v, base.Out)
@@ -460,7 +479,10 @@ func (c02) Run(plan interface{}, schedSeed uint64, replay []simrt.Choice, lenien
 	}
 	want, have := pkgsOnly(base.Recs), pkgsOnly(got.Recs)
 	werr, herr := errsOnly(base.Recs), errsOnly(got.Recs)
-	if len(herr) > len(werr) {
+	if p.EOFAtEnd {
+		v.Probe("last-bytes-together-with-eof")
+	}
+	if len(herr) > len(werr) && !p.EOFAtEnd {
 		sig := "error"
 		e := herr[0]
 		switch {
@@ -489,6 +511,9 @@ func (c02) Run(plan interface{}, schedSeed uint64, replay []simrt.Choice, lenien
 	if len(out.Parked) > 0 {
 		// the reader legitimately stays parked in Read at the end; anything else parked is a problem
 		for _, pk := range out.Parked {
+			if p.EOFAtEnd && strings.HasPrefix(pk.Task, "go@") && strings.Contains(Sites[pk.Site].Func, "queueError") {
+				continue // the transport has ended and nobody takes the reader's errors any more
+			}
 			if pk.Op != "read" {
 				v.Violate("deadlock", "deadlock "+ParkSig(out, Sites), "tasks still blocked at the end: %v", out.Parked)
 			}
